@@ -129,6 +129,22 @@ def check(chk):
         [src(a) for a in call.args] == ['frame', 'msg'] and 'frame = self._current_frame' in s
     chk.judge(slice_ok, 'C05.complete', pib, 'body = buffer[body_offset : end_pos] handed to process_msg with its frame',
               'body slice / arguments of process_msg changed')
+    # the frame buffer is cut at its cursor after the dispatch: the cursor must stand at end_pos, i.e. the body was read (seek to body_offset, read end_pos - body_offset)
+    # on every path to the reset, also for a frame without body
+    chk.rule('C05.cursor', 'every path to reset_cql_frame_buffer() has sought to body_offset and read end_pos - body_offset bytes: the cursor is at the end of the frame when the buffer is cut')
+    from ..sem import resolve as _res05
+    resets = [n for n in g.stmt_nodes() if n.kind == 'stmt' and 'reset_cql_frame_buffer()' in src(n.ast)]
+    reads = [n for n in g.stmt_nodes() if n.kind == 'stmt' and any(isinstance(x, ast.Call) and src(x.func).endswith('cql_frame_buffer.read') and x.args
+                                                                    and src(_res05(pib, x.args[0])) in ('frame.end_pos - frame.body_offset', 'self._current_frame.end_pos - self._current_frame.body_offset')
+                                                                    for x in ast.walk(n.ast))]
+    seeks = [n for n in g.stmt_nodes() if n.kind == 'stmt' and any(isinstance(x, ast.Call) and src(x.func).endswith('cql_frame_buffer.seek') and x.args
+                                                                    and src(_res05(pib, x.args[0])) in ('frame.body_offset', 'self._current_frame.body_offset') for x in ast.walk(n.ast))]
+    if not resets:
+        raise AnalysisError('process_io_buffer: reset_cql_frame_buffer() not found')
+    okc = all(any(g.dominates(r_, rs) and any(g.dominates(sk_, r_) for sk_ in seeks) for r_ in reads) for rs in resets)
+    chk.judge(okc, 'C05.cursor', resets[0].ast, 'the body is read (cursor at end_pos) on every path before the frame buffer is cut at the cursor',
+              'a path reaches reset_cql_frame_buffer() without having read the body: the cursor still stands where the header / the arriving bytes left it, and the reset keeps only what '
+              'follows the cursor - the bytes of the next frames that arrived in the same buffer are dropped or the stream is cut in the middle of a frame')
     # pos source when a frame is pending
     chk.judge('pos = self._io_buffer.readable_cql_frame_bytes()' in s and 'pos = self._read_frame_header()' in s, 'C05.complete', pib,
               'pos = buffered frame bytes (header read when no frame is pending)', 'position source changed')
